@@ -530,18 +530,18 @@ func VerifyObjectCopyAccess(ctx context.Context, be backend.Backend, copySource 
 		return err
 	}
 	// Verify source bucket access
-	srcBucket, srcObject, found := strings.Cut(copySource, "/")
-	if !found {
-		return s3err.GetAPIError(s3err.ErrInvalidCopySource)
+	// the source is split into bucket, key and version id exactly as the
+	// backends split it (a key may itself contain "?versionId="): the
+	// object that is checked is the object that is read. The resource is
+	// the object itself, not "object?versionId=...", and reading a
+	// specific version needs s3:GetObjectVersion
+	srcBucket, srcObject, srcVersionId, err := backend.ParseCopySource(copySource)
+	if err != nil {
+		return err
 	}
-	// the resource is the object itself, not "object?versionId=...", and
-	// reading a specific version needs s3:GetObjectVersion
 	srcAction := GetObjectAction
-	if obj, versionId, ok := strings.Cut(srcObject, "?versionId="); ok {
-		srcObject = obj
-		if versionId != "" {
-			srcAction = GetObjectVersionAction
-		}
+	if srcVersionId != "" {
+		srcAction = GetObjectVersionAction
 	}
 
 	// Get source bucket ACL
